@@ -3,6 +3,12 @@ from . import sched_run
 
 LEAN_TARGETS = ['DawgieVerif.Model.SchedIO']
 TRUSTED = sched_run.TRUSTED
+MANIFEST = dict(
+    text='Lean theorem release_safe over Model/Sched.lean (a line-by-line model of schedule.organize/next_job_batch/complete/purge/update/defer and the per-job part of farm.dispatch): after EVERY history of requests, dispatches, replies of any outcome, timer events, pauses (induction over the op list, no protocol assumption), every unit the next dispatch releases has all ancestors idle for its target and for the all-targets marker, and an all-targets unit is released only when its ancestors have nothing pending or executing. Supporting theorems: release_safe_within_batch, busy_nodes_are_queued (the invariant the release filter relies on), paused_releases_nothing. The model is tied to the real schedule.py/farm.py/dag.py by an op-by-op correspondence on synthetic engines loaded through the real scanner, and an independent monitor recomputes upstream closures from the declared references.',
+    note="Trusted: Lean kernel, axioms propext/Classical.choice/Quot.sound; harness/sched_env.py fakes (db.targets/next, context.fsm, chronicle.append). The theorem speaks about node.get('ancestry') as supplied by the real graph; that this is the transitive closure of declared inputs is C09. 'Executing' = the doing set, which equals the units in flight (C03 executing_iff_inflight). Promotion is off (default).",
+    technique='Lean 4 proof: invariant by induction over operation histories + differential correspondence',
+    design='7/C01',
+)
 WANT = {'C01'}
 
 
